@@ -3,6 +3,7 @@
 (* scheduler is a behaviour of PidAlloc (one spec action per recorded event, logged values     *)
 (* bound to the spec's variables), and C16's invariants hold in every state of it.             *)
 EXTENDS PidAlloc, Json, IOUtils, TLCExt
+CONSTANT StaleReads   \* TRUE: the named deviation "a thread may work with a value of the counters that is not the current one" (values taken from the log)
 Rec == ndJsonDeserialize(IOEnv.TRACE)
 VARIABLE l
 tvars == <<vars, l>>
@@ -15,10 +16,17 @@ Reset == /\ IsEvent("reset")
          /\ left' = [t \in Threads |-> NAlloc] /\ issued' = <<>>
          /\ ctr' = Rec[l].ctr /\ rpc' = [t \in RefThreads |-> 0] /\ rwords' = [t \in RefThreads |-> <<>>]
          /\ rleft' = [t \in RefThreads |-> NRef] /\ rissued' = <<>>
+         /\ origin' = <<Rec[l].id, Rec[l].serial>>
 TCall == IsEvent("call") /\ Call(T)
 TLocked == IsEvent("locked") /\ Acquire(T)
-TLoadId == IsEvent("loaded_id") /\ LoadId(T) /\ lid'[T] = Rec[l].id
-TLoadSer == IsEvent("loaded_serial") /\ LoadSer(T) /\ lser'[T] = Rec[l].serial
+TLoadId == /\ IsEvent("loaded_id")
+           /\ IF StaleReads THEN /\ Go(T, "locked", "loaded_id") /\ lid' = [lid EXCEPT ![T] = Rec[l].id]
+                                 /\ UNCHANGED <<nextId, nextSerial, creation, lock, lser, left, issued, rvars>>
+                            ELSE LoadId(T) /\ lid'[T] = Rec[l].id
+TLoadSer == /\ IsEvent("loaded_serial")
+            /\ IF StaleReads THEN /\ Go(T, "loaded_id", "loaded_ser") /\ lser' = [lser EXCEPT ![T] = Rec[l].serial]
+                                  /\ UNCHANGED <<nextId, nextSerial, creation, lock, lid, left, issued, rvars>>
+                             ELSE LoadSer(T) /\ lser'[T] = Rec[l].serial
 TStoreOne == IsEvent("stored_one") /\ StoreOne(T)
 TFetchAdd == IsEvent("bumped_serial") /\ FetchAdd(T) /\ nextSerial' % SerialMod = Rec[l].serial
 TStoreNext == IsEvent("stored_next") /\ StoreNext(T) /\ nextId' = Rec[l].next
@@ -28,8 +36,8 @@ TBlocked == IsEvent("blocked") /\ pc[T] = "probe" /\ (LockEnforced => lock \noti
 TRefCall == IsEvent("ref_call") /\ UNCHANGED vars
 TRefWord == IsEvent("ref_word") /\ RefWord(T) /\ ctr = Rec[l].w
 TRefReturn == IsEvent("ref_return") /\ RefReturn(T)
-TraceNext == Reset \/ TCall \/ TLocked \/ TLoadId \/ TLoadSer \/ TStoreOne \/ TFetchAdd \/ TStoreNext \/ TReturn \/ TBlocked
-             \/ TRefCall \/ TRefWord \/ TRefReturn
+TraceNext == Reset \/ ((TCall \/ TLocked \/ TLoadId \/ TLoadSer \/ TStoreOne \/ TFetchAdd \/ TStoreNext \/ TReturn \/ TBlocked
+                         \/ TRefCall \/ TRefWord \/ TRefReturn) /\ UNCHANGED origin)
 TraceSpec == TraceInit /\ [][TraceNext]_tvars
 TraceAccepted == LET d == TLCGet("stats").diameter IN
                  IF d - 1 = Len(Rec) THEN TRUE
